@@ -22,9 +22,9 @@
 //!   {"ev":"publish","path":rel,"version":v,"diagnostics":[{"range":[l0,c0,l1,c1],"message":m}]}
 //!   {"ev":"timeout","waiting_for":{...}} {"ev":"idle"} {"ev":"sync","thread":n,"point":p} (hooks)
 //! Idle (no hooks): every request answered, a publication with the version of the last notification seen,
-//! and nothing received or sent for quiet_ms.  Idle (hooks): every request answered, no live snapshot
-//! task, every notification's diagnostics task spawned, then a marker notification pushed through the
-//! server's own ClientSocket (FIFO with the publications) has come back.
+//! and nothing received or sent for quiet_ms (heuristic).  Idle (hooks): every request answered, no live
+//! snapshot task, every notification's diagnostics task spawned, then a marker notification pushed through the
+//! server's own ClientSocket (FIFO with the publications) has come back (exact, independent of what is published).
 use std::collections::{BTreeMap, HashMap};
 use std::io::Read;
 use std::path::{Path, PathBuf};
@@ -337,7 +337,9 @@ impl Driver {
     #[cfg(tablegen_lsp_verif)]
     async fn settled(&mut self) -> bool {
         use async_lsp::lsp_types::{notification::LogMessage, LogMessageParams, MessageType};
-        if !(self.base_conditions() && self.hooks.quiescent(self.notifs_sent)) {
+        // exact: every request answered, every notification's diagnostics task spawned, no live task
+        // (no assumption on WHAT a task publishes)
+        if !(self.pending.is_empty() && self.hooks.quiescent(self.notifs_sent)) {
             return false;
         }
         // everything the tasks published is already queued in the main loop's channel: a marker sent
@@ -351,7 +353,7 @@ impl Driver {
         while self.markers_seen < self.markers_sent && Instant::now() < deadline {
             self.pump(Duration::from_millis(5)).await;
         }
-        self.markers_seen >= self.markers_sent && self.base_conditions()
+        self.markers_seen >= self.markers_sent && self.pending.is_empty()
     }
 
     /// Waits until the server is idle or the watchdog expires; false = timeout (logged).
